@@ -143,6 +143,13 @@ void ut_f_to_timespec(double t, struct timespec *ts)
  *      registrations before it asks; what is still registered belongs to somebody else).
  *  A4  ares_destroy / ares_freeaddrinfo / ares_timeout / ares_getsock leave errno alone; ares_getaddrinfo and ares_process*
  *      do socket I/O: errno is ARBITRARY afterwards.
+ *  A5  the callback status is never ARES_ENOTIMP: c-ares documents it for an address family it cannot look up, and the library
+ *      passes no hints (query_cb states the same with ut_assert).  Checked natively against the installed c-ares 1.18.1 with a
+ *      fake name server on 127.0.0.1:53 answering every query with rcode NOTIMP: 22 retries, then a clean failure status
+ *      (xcm_finish: ENOENT), no abort.
+ *  A6  ARES_SUCCESS comes with a list of at least one node.  Checked natively the same way with CNAME-only answers (no address
+ *      record): c-ares reports a failure status, not success with an empty list.  (The first version of this model allowed
+ *      both and reported two violations that no c-ares behaviour backs: corrected here, see DESIGN.md 9.)
  *  c-ares' own descriptors are not in the descriptor table of env/fd.h (the library under proof never creates or closes them).
  */
 struct ares_channeldata { int xv_live; };
@@ -151,7 +158,7 @@ static int xv_ares_any_status(void)
 {
     int st = nondet_int();
     /* (ARES_ECANCELLED is the status of lookups ended by ares_cancel(), which the library never calls) */
-    __CPROVER_assume(st >= ARES_SUCCESS && st <= ARES_ESERVICE && st != ARES_ENOMEM && st != ARES_EDESTRUCTION && st != ARES_ECANCELLED);
+    __CPROVER_assume(st >= ARES_SUCCESS && st <= ARES_ESERVICE && st != ARES_ENOMEM && st != ARES_EDESTRUCTION && st != ARES_ECANCELLED && st != ARES_ENOTIMP /* A5 */);
     return st;
 }
 /* the callback of the outstanding lookup is made now */
@@ -163,7 +170,7 @@ static void xv_ares_complete(int status)
         __CPROVER_assume(res != NULL);
         xv_ar.results++;
         int n = nondet_int();          /* ANY list length (the list itself is not built: see A2) */
-        __CPROVER_assume(n >= 0 && n <= XV_NODES_MAX);
+        __CPROVER_assume(n >= 1 /* A6 */ && n <= XV_NODES_MAX);
         xv_ar.cb_nodes = n;
     }
     xv_ar.pending = 0; xv_ar.cb_n++; xv_ar.cb_status = status;
